@@ -114,7 +114,7 @@ pub fn run(ctx: &GCtx, spec: &Spec) -> i32 {
         let edits: BoxedStrategy<Vec<Edit>> = match spec.values {
             Values::Conforming => Just(vec![]).boxed(),
             Values::Evolved => prop::collection::vec(arb_edit(), 1..5).boxed(),
-            Values::WithUnknown => prop::collection::vec(arb_edit().prop_filter("unknown-field edits only", |e| matches!(e, Edit::AddUnknown(..) | Edit::Reorder(..))), 1..5).boxed(),
+            Values::WithUnknown => prop::collection::vec(vcore::tschema::arb_unknown_edit(), 1..5).boxed(),
         };
         let pks = spec.pks.clone();
         let union_replace = spec.values == Values::WithUnknown;
@@ -129,7 +129,7 @@ pub fn run(ctx: &GCtx, spec: &Spec) -> i32 {
             if spec.values == Values::Conforming && !doc.conforms_shape(&mt.shape, &wire) {
                 return Ok(());
             }
-            if spec.values != Values::Conforming && !doc.tolerant_conforms_shape(&mt.shape, &wire) {
+            if spec.values != Values::Conforming && !doc.tolerant_conforms_shape_for(&mt.shape, &wire, keep && spec.values == Values::WithUnknown) {
                 rec.borrow_mut().exclude("a known field keeps its outer wire type but changes inner types (outside the property)");
                 return Ok(());
             }
@@ -172,6 +172,7 @@ pub fn run(ctx: &GCtx, spec: &Spec) -> i32 {
                 r.class_if(info.removed > 0, "edit: field removed");
                 r.class_if(info.retyped > 0, "edit: field retyped");
                 r.class_if(info.reordered > 0, "edit: fields reordered");
+                r.class_if(info.split_keys > 0, "edit: set element / map key with a twin that differs in an unknown field only");
             }
             // memory-unsafe code under test can take the process down without unwinding: the
             // orchestrator attributes such a death to the journaled case
